@@ -1610,8 +1610,28 @@ fn unb64(s: &str) -> Option<Vec<u8>> {
 }
 
 /// A hostile replacement for a string value, chosen by what the field is.
+/// Free text: multi-byte characters placed so that a byte limit a handler
+/// may apply (64, 128, 255, 256, 1000, 1024, 4096 ...) falls inside one.
+fn boundary_text(rng: &mut Rng) -> String {
+    let limit = *rng.pick(&[32usize, 64, 100, 128, 200, 255, 256, 500, 512,
+                            1000, 1024, 2048, 4096, 65535]);
+    let wide = *rng.pick(&["é", "ü", "ж", "日", "🦀"]);
+    // ASCII up to just before the limit, then wide characters across it
+    let lead = limit.saturating_sub(rng.range(1, wide.len() as u64) as usize);
+    let mut s: String = std::iter::repeat_n('a', lead).collect();
+    for _ in 0..rng.range(1, 40) { s.push_str(wide) }
+    if rng.chance(1, 3) { s = std::iter::repeat_n(wide, limit).collect() }
+    s
+}
+
 fn hostile_string(rng: &mut Rng, key: &str, orig: &str) -> String {
+    if matches!(key, "comment" | "name" | "msg" | "description")
+        && rng.chance(1, 2)
+    {
+        return boundary_text(rng)
+    }
     if rng.chance(1, 14) { return long_str(rng) }
+    if rng.chance(1, 40) { return boundary_text(rng) }
     if rng.chance(1, 8) { return rng.pick(GENERIC).to_string() }
     // base64 blobs: structure-aware mutation of the DER inside
     if let Some(der) = unb64(orig) {
@@ -2675,6 +2695,11 @@ fn build_seeds(w: &World, signer: &FastSigner) -> Result<Seeds, String> {
                "removed": []}),
         json!({"added": [], "removed": [
             {"asn": 65002, "prefix": "10.1.1.0/24", "max_length": 28}]}),
+        // a delta that stays acceptable when only its comment is replaced
+        // (an authorisation submitted again with another comment is a
+        // comment change)
+        json!({"added": [{"asn": 65001, "prefix": "10.1.4.0/24",
+                          "comment": "note"}], "removed": []}),
     ]);
     json.insert("resource_set", vec![
         tv(&ResourceSet::from_strs("AS65001", "10.1.0.0/20", "2001:db8:1::/48").unwrap()),
